@@ -1,6 +1,7 @@
 """Per-property check definitions (what TLC explores, what is replayed, which bounds per tier)."""
 import akcheck
 
+L2_TRUSTED = "harness/l2/_ext.py + harness/l2/akworker_l2.cpp (stand-in for the pybind11 extension src/python/*.cpp, which cannot be compiled here)"
 ALL_CLASSES = '{"ListOffset","List","Regular","Indexed","IndexedOption","ByteMasked","BitMasked","Unmasked"}'
 LIST_CLASSES = '{"ListOffset","List","Regular"}'
 
@@ -27,6 +28,10 @@ def run_C05(ctx):
         consts = session_consts(OpSet='{"tolist","num","flatten","localindex"}')
     ctx.tlc_phase("structure", "Session", consts, invariants=["Refines", "Closed"],
                   require_actions=["NumOp", "FlattenOp", "LocalIndexOp", "WrapListOffset", "WrapList"])
+    # the same laws through ak.num / ak.flatten / ak.local_index of the repository's Python layer (L2)
+    consts = session_consts(OpSet='{"num","flatten","localindex"}', LeafSet=leafset(2), Classes='{"ListOffset","List","Regular","IndexedOption","ByteMasked"}')
+    ctx.l2_phase("structure-python-layer", "Session", consts, ("l2replay", "h_generic"), invariants=["Closed"],
+                 require_actions=["NumOp", "FlattenOp", "LocalIndexOp"], sample_cases=(12000 if ctx.quick() else 200000), timeout=900)
     return ctx.finish(assumptions=["leaf values are the positions 1..n (distinct), so any misplaced element is visible"])
 
 
@@ -87,6 +92,9 @@ def run_C01(ctx):
                             SliceTuples="RandomSubset(%d, %s)" % (150 if ctx.quick() else 600, tuples))
     ctx.tlc_phase("slice-2d-index-arrays", "Session", consts, invariants=["Refines", "Closed"],
                   require_actions=["SliceOp", "WrapRegular"], seed_tlc=True, sample_cases=(150000 if ctx.quick() else None), timeout=400)
+    consts = session_consts(OpSet='{"slice"}', LeafSet=leafset(2), SliceTuples="RandomSubset(12, %s)" % slice_tuples(0))
+    ctx.l2_phase("slice-python-layer", "Session", consts, ("l2replay", "h_generic"), invariants=["Closed"], seed_tlc=True,
+                 require_actions=["SliceOp"], sample_cases=(12000 if ctx.quick() else 200000), timeout=900)
     return ctx.finish(assumptions=["slice tuples are a seeded random subset (per layout) of the tier's tuple alphabet"])
 
 
@@ -104,6 +112,9 @@ def run_C09(ctx):
                             Targets="{0,1,2,3}" if not ctx.quick() else "{0,1,3}")
     ctx.tlc_phase("pad-all-encodings", "Session", consts, invariants=["Refines", "Closed"],
                   require_actions=["PadOp", "IsNoneOp", "WrapByteMasked", "WrapBitMasked", "WrapIndexedOption", "WrapUnmasked"])
+    consts = session_consts(OpSet='{"pad","isnone"}', LeafSet=leafset(2), Classes=OPTION_CLASSES, Axes="{-2,-1,0,1,2}", Targets="{0,1,3}")
+    ctx.l2_phase("pad-isnone-python-layer", "Session", consts, ("l2replay", "h_generic"), invariants=["Closed"],
+                 require_actions=["PadOp", "IsNoneOp"], sample_cases=(12000 if ctx.quick() else 200000), timeout=900)
     return ctx.finish()
 
 
@@ -115,7 +126,13 @@ def run_C07(ctx):
                             MaxLen="2", Axes="{-2,-1,0,1,2,3}", CombNs="{0,1,2,3}" if ctx.quick() else "{0,1,2,3,4}")
     ctx.tlc_phase("combinations", "Session", consts, invariants=["Refines", "Closed"],
                   require_actions=["CombOp", "WrapListOffset", "WrapList", "WrapRegular"])
-    return ctx.finish()
+    # the Python half: ak.cartesian / ak.argcartesian (src/awkward/operations/structure.py) on pairs of arrays (L2)
+    consts = session_consts(OpSet='{"cartesian","aux"}', LeafSet=leafset(3), MaxDepth="1", MaxLen="2",
+                            Classes='{"ListOffset","List","Regular"}')
+    ctx.l2_phase("cartesian-python-layer", "Session", consts, ("l2replay", "h_c07_cartesian"), invariants=["Closed"],
+                 require_actions=["CartesianOp", "StoreAux"], sample_cases=(15000 if ctx.quick() else 200000), timeout=900)
+    return ctx.finish(assumptions=["ak.cartesian is checked for two operands, axis 0 / 1 / -1, list and dict forms; option-type and "
+                                   "deeper operands are outside this model (Unspec)", L2_TRUSTED])
 
 
 # ------------------------------------------------------------------ C11 (validity exact + closed)
@@ -158,6 +175,10 @@ def run_C03(ctx):
     ctx.tlc_phase("reduce", "Session", consts, invariants=["Refines", "Closed"], seed_tlc=True,
                   require_actions=["ReduceOp", "WrapListOffset", "WrapList", "WrapRegular", "WrapIndexedOption",
                                    "WrapByteMasked"])
+    consts = session_consts(OpSet='{"reduce"}', LeafSet=REDUCE_LEAVES, Classes='{"ListOffset","List","Regular","IndexedOption","ByteMasked"}',
+                            Axes="{-2,-1,0,1}", ReduceArgs="RandomSubset(4, AllReduceArgs)")
+    ctx.l2_phase("reduce-python-layer", "Session", consts, ("l2replay", "h_generic"), invariants=["Closed"], seed_tlc=True,
+                 require_actions=["ReduceOp"], sample_cases=(12000 if ctx.quick() else 200000), timeout=900)
     return ctx.finish(assumptions=["leaf values are small integers incl. ties and zeros; float accuracy is out of scope",
                                    "records/unions are not reduced by this model (VReduce returns Unspec)"])
 
@@ -205,6 +226,10 @@ def run_C06(ctx):
                             Axes="{-3,-2,-1,0,1,2}", SortArgs="RandomSubset(%d, AllSortArgs)" % (3 if ctx.quick() else 8))
     ctx.tlc_phase("sort", "Session", consts, invariants=["Refines", "Closed"], seed_tlc=True,
                   require_actions=["SortOp", "WrapListOffset", "WrapList", "WrapRegular", "WrapIndexedOption"])
+    consts = session_consts(OpSet='{"sort"}', LeafSet=SORT_LEAVES, Classes='{"ListOffset","List","Regular","IndexedOption"}',
+                            Axes="{-2,-1,0,1}", SortArgs="RandomSubset(3, AllSortArgs)")
+    ctx.l2_phase("sort-python-layer", "Session", consts, ("l2replay", "h_generic"), invariants=["Closed"], seed_tlc=True,
+                 require_actions=["SortOp"], sample_cases=(12000 if ctx.quick() else 200000), timeout=900)
     return ctx.finish(assumptions=["float leaves hold small integers and NaN only; strings are not modelled yet",
                                    "non-innermost sort with missing lists inside a group is Unspec in the model"])
 
@@ -244,6 +269,8 @@ def run_C14(ctx):
                   init="BInit", next_="BNext", view=None, action_constraints=["BEmit"],
                   simulate="num=%d" % (20000 if ctx.quick() else 300000), depth=13,
                   translate=("replay", "steps_builder"), judge_fn=("replay", "judge_builder"))
+    # code -> spec: long random sessions recorded from the real builder, validated against Builder.tla (TraceBuilder.tla)
+    ctx.builder_trace_phase("builder-traces-code-to-spec", 600 if ctx.quick() else 8000, 60)
     return ctx.finish(rule="one case = one maximal command sequence (all sequences up to the bound; sampled beyond it); the "
                            "expected snapshot after EVERY command is compared, and all snapshots are re-read at the end",
                       assumptions=["the builder's state after an error and clear() with open containers are unspecified",
@@ -677,7 +704,7 @@ VIRT_OPS = ('{[op |-> "length"], [op |-> "type"], [op |-> "tojson"], [op |-> "at
 def run_C18(ctx):
     ctx.build("opt")
     q = ctx.quick()
-    vc = dict(CacheKinds='{"none", "keep", "evict_always"}', GenModes='{"ok", "short", "wrongform", "raises", "raise_first"}',
+    vc = dict(CacheKinds='{"none", "keep", "evict_always"}', GenModes='{"ok", "short", "wrongform", "raises", "raise_first", "bad_first"}',
               Decls='{[len |-> 0, form |-> 0], [len |-> 1, form |-> 0], [len |-> 0, form |-> 1], [len |-> 1, form |-> 1]}',
               Ops=VIRT_OPS, MaxSteps=str(3 if q else 4), EmitOn="TRUE")
     kw = dict(init="VInit", next_="VNext", view="VView", action_constraints=["VEmit"],
